@@ -306,7 +306,10 @@ def gen_cases(tier, seed):
     cases = []
 
     def add(pi, es, cut, eof, lim, fwd):
-        cases.append({'id': 'c%05d' % len(cases), 'pl': pi + 1, 'es': es, 'cut': cut, 'eof': eof, 'lim': lim, 'fwd': fwd})
+        n = len(es)
+        # the same entries under two more partitions: one message; one entry per message with empty messages between
+        alts = [[n], [x for _ in range(n) for x in (1, 0)]] if n > 0 else [[0, 0]]
+        cases.append({'id': 'c%05d' % len(cases), 'pl': pi + 1, 'es': es, 'cut': cut, 'alts': alts, 'eof': eof, 'lim': lim, 'fwd': fwd})
 
     span = DUR * WINDOWS
     for pi, p in enumerate(PIPELINES):
@@ -315,14 +318,14 @@ def gen_cases(tier, seed):
         # (1) every single-entry case over the whole sampling pool, every partition into <= 2 messages
         for t in p['spool']:
             sr = rnd.choice(series)
-            for cut in cuts(1, 2):
+            for cut in (cuts(1, 2) if tier != 'quick' else [rnd.choice(cuts(1, 2))]):
                 eof = rnd.random() < 0.7
                 add(pi, [{'lb': sr, 'ts': rnd.randrange(span), 'ln': t}], cut, eof, rnd.choice(lims), True)
         # the empty stream
         add(pi, [], [], True, 0, True)
         add(pi, [], [0], False, rnd.choice(lims), True)
         # (2) seeded larger cases
-        nrand = (14 if tier == 'quick' else 120)
+        nrand = (12 if tier == 'quick' else 120)
         for _ in range(nrand):
             n = rnd.choice([2, 2, 3, 3, 4, 5] if tier == 'quick' else [2, 3, 3, 4, 4, 5, 6, 7])
             fwd = rnd.random() < 0.5
@@ -436,7 +439,8 @@ def chain_casefile(cases, outs, conc, seed):
             raise vlib.Infra('export out of order: %s vs %s' % (c['id'], o['id']))
         p = PIPELINES[c['pl'] - 1]
         cs.append({'id': c['id'], 'pid': p['id'], 'q': p['q'], 'metric': is_metric(p), 'es': c['es'], 'cut': c['cut'], 'eof': c['eof'],
-                   'lim': c['lim'], 'fwd': c['fwd'], 'exp': obs_json(o['exp']), 'pred': obs_json(o['pred']), 'agree': o['agree'],
+                   'alts': c['alts'], 'lim': c['lim'], 'fwd': c['fwd'], 'exp': obs_json(o['exp']), 'preds': [obs_json(x) for x in o['preds']],
+                   'agree': o['agree'],
                    'causes': sorted(o['causes'])})
     return {'conc': conc, 'dur_s': DUR, 'windows': WINDOWS, 'seed': seed, 'cases': cs}
 
@@ -484,7 +488,7 @@ def chain_violations(cf, res):
         ups = [{'labels': e['lb'], 'ts_s': e['ts'], 'line': cf['conc'].get(e['ln'], e['ln'])} for e in c['es']]
         replay = vlib.save_replay('C09', re.sub(r'[^A-Za-z0-9_+-]+', '_', sig)[:150],
                                   {'signature': sig, 'query': c['q'], 'limit': c['lim'], 'forward': c['fwd'], 'eof_marker': c['eof'],
-                                   'partition': c['cut'], 'upstream_entries': ups, 'expected': c['exp'], 'predicted_as_coded': c['pred'],
+                                   'partition': c['cut'], 'upstream_entries': ups, 'expected': c['exp'], 'predicted_as_coded': c['preds'][0],
                                    'observed': m.get('obs'), 'observed_other_partitions': m.get('part_obs'), 'other_partitions': m.get('part_cuts'),
                                    'plan': m.get('plan'), 'stderr': m.get('stderr'), 'causes': c['causes'], 'cases_with_this_signature': len(lst),
                                    'replay_cmd': 'c09 chain -cases <file with this case>', 'case': c})
@@ -599,7 +603,7 @@ def run(tier):
             'traces_validated_against_impl': chain['cases'] + cross.get('queries', 0),
             'samples': [{'query': sample['q'], 'limit': sample['lim'], 'partition': sample['cut'], 'eof': sample['eof'],
                          'upstream': [{'labels': e['lb'], 'ts': e['ts'], 'line': conc.get(e['ln'], e['ln'])} for e in sample['es']],
-                         'expected': sample['exp'], 'predicted_as_coded': sample['pred']}],
+                         'expected': sample['exp'], 'predicted_as_coded': sample['preds'][0]}],
             'theorem': {'bounds': {'max_entries': 2 if quick else 3, 'max_messages': 2 if quick else 3, 'pipelines': len(PIPELINES)},
                         'states': thm['states'], 'wall_s': thm['wall_s'],
                         'invariants': ['Thm_BatchingIndependent', 'Thm_LimitMeaning', 'Thm_SeriesIdentity']},
